@@ -47,6 +47,14 @@ def check(pid, tier='quick', seed=0):
     rewrites = 0
     samples = []
     cmds = []
+    kinds = prop.get('only_kinds')
+    lab_re = re.compile(prop['only_labels']) if prop.get('only_labels') else None
+    def relevant(x):
+        if kinds is None and lab_re is None:
+            return True
+        if x.get('label') and lab_re is not None and lab_re.search(x['label']):
+            return True
+        return kinds is not None and x['kind'] in kinds and not (x['kind'] == 'postcondition')
     for u in units:
         r = results[u]
         for msg in r.undecided:
@@ -62,14 +70,6 @@ def check(pid, tier='quick', seed=0):
         in_scope = [f for f in r.info['functions'] if fn_in_scope(globs, f['fn'])]
         if not in_scope:
             undecided.append('%s: no function of this unit is in scope of %s (vacuous check)' % (u, pid))
-        kinds = prop.get('only_kinds')
-        lab_re = re.compile(prop['only_labels']) if prop.get('only_labels') else None
-        def relevant(x):
-            if kinds is None and lab_re is None:
-                return True
-            if x.get('label') and lab_re is not None and lab_re.search(x['label']):
-                return True
-            return kinds is not None and x['kind'] in kinds and not (x['kind'] == 'postcondition')
         for f in in_scope:
             fails = [x for x in r.failed if x['fn'] == f['fn'] and relevant(x)]
             # obligations of a function: its labelled contract clauses + its body safety/termination query
@@ -154,12 +154,12 @@ def check(pid, tier='quick', seed=0):
         # (b) second seed: an obligation that fails under one solver seed only is unstable, not violated
         s2 = (seed or 0) + 1
         sres = runner.run_units(units, rlimit=prop.get('rlimit', 40), seed=s2)
-        base_fail = set(x['obligation'] for x in failed)
+        base_fail = set(x['obligation'] for u in units for x in results[u].failed)
         unstable = 0
         for u in units:
             r = sres[u]
             for x in r.failed:
-                if r.info and fn_in_scope(prop['units'][u], x['fn']) and x['obligation'] not in base_fail:
+                if r.info and fn_in_scope(prop['units'][u], x['fn']) and relevant(x) and x['obligation'] not in base_fail:
                     unstable += 1
                     undecided.append('%s: %s fails only with solver seed %d (unstable proof, not a violation)' % (u, x['obligation'], s2))
             for msg in r.undecided:
